@@ -10,7 +10,8 @@ import vlib
 GEN = ["GenResolve"]
 TRUSTED = [
     "Coq 8.16.1 kernel (coqc); vm_compute only for the refutation witnesses and the non-vacuity examples; no axioms",
-    "translator tools/gens/gen_resolve.py (three flags: do fn if_branch / fn case_branch / the fall_through arm of fn expression restore the scope stack)",
+    "translator tools/gens/gen_resolve.py (four flags: do fn if_branch / fn case_branch / the fall_through arm of fn "
+    "expression restore the scope stack; does the AK::Access arm look at the scope stack before the namespace table)",
     "Resolve/Resolver.v as the model of name_resolution.rs: hand-written, validated on every run against the real "
     "resolver (Debug dump of Vec<Var> and Vec<Statement> through the cfg-guarded hook; first error kind/file/line/columns)",
     "harness `treef` dump of sylt_parser::tree (harness/src/sexp.rs) and ocaml/past_reader.ml, tools/rustdebug.py + "
@@ -26,8 +27,9 @@ ASSUMPTIONS = [
     "file ids of the parsed modules are distinct (tree(): file_id = |visited|; C12 visit_once)",
 ]
 EXPLANATION = ("Model of the resolver's stack discipline tied to the real resolver's output on every run; readable "
-               "scope-list specification; refinement proved for the resolver with restored scopes and refuted (witness) "
-               "for the pinned flags; alpha-equivalence theorem for stack-consistent renamings; oracle: byte equality of "
+               "scope-list specification; refinement refuted (four witnesses) whenever a flag is off, compared on every "
+               "tie input for the all-flags-on resolver; alpha-equivalence theorem for renamings consistent with the "
+               "implemented discipline, refuted for the documented one while if-branches leak; oracle: byte equality of "
                "the emitted Lua for two consistent renamings (maximally distinct vs maximal shadowing) and rejection of "
                "planted out-of-scope uses, on the real compiler.")
 
